@@ -65,13 +65,15 @@ class Ctx:
 def coq_make(targets=None, timeout=3600):
     """(Re)build the proof development; returns (ok, log)."""
     mk = os.path.join(COQ, "Makefile")
+    os.makedirs(BUILD, exist_ok=True)
     if not os.path.exists(mk) or os.path.getmtime(mk) < os.path.getmtime(os.path.join(COQ, "_CoqProject")):
         r = subprocess.run(
             ["coq_makefile", "-f", "_CoqProject", "-o", "Makefile"], cwd=COQ, capture_output=True, text=True
         )
         if r.returncode != 0:
             return False, r.stdout + r.stderr
-    cmd = ["timeout", str(timeout), "make", "-j%d" % NCPU] + (targets or [])
+    # one make at a time (checks of different properties may run concurrently)
+    cmd = ["flock", os.path.join(COQ, ".make.lock"), "timeout", str(timeout), "make", "-j%d" % NCPU] + (targets or [])
     r = subprocess.run(cmd, cwd=COQ, capture_output=True, text=True)
     return r.returncode == 0, r.stdout[-4000:] + r.stderr[-6000:]
 
